@@ -124,6 +124,10 @@ Tick == now < MaxT /\ now' = now + 1 /\ UNCHANGED <<up, fib, ints, nint, handled
 Shutdown == /\ up /\ up' = FALSE
             /\ fib' = IF Front = "legacy" THEN [n \in Names |-> Free] ELSE fib
             /\ UNCHANGED <<now, ints, nint, handled, wire, rets, ops>>
+\* main_loop is run again on the same application object: appv2 keeps its handler table over connections
+\* (the legacy table was emptied by Shutdown); Interests received earlier can still be answered in time
+Connect == /\ ~up /\ up' = TRUE
+           /\ UNCHANGED <<now, fib, ints, nint, handled, wire, rets, ops>>
 RecvJunk(j) == up /\ UNCHANGED vars
 
 Next ==
@@ -133,7 +137,7 @@ Next ==
   \/ \E it \in IntTemplates, env \in Envs : RecvInterest(it, env)
   \/ \E i \in IntId, v \in Verdicts : IntValFinish(i, v)
   \/ \E i \in IntId : Reply(i)
-  \/ Tick \/ Shutdown
+  \/ Tick \/ Shutdown \/ Connect
   \/ \E j \in Junk : RecvJunk(j)
 Spec == Init /\ [][Next]_vars
 
